@@ -117,13 +117,15 @@ def Node.addFile (n : Node) (F : String) (x : File) : Node :=
 
 /-- `FileSystem.create_file(folder_name=F, file_name=f, force)` behind the request (the request refuses an existing
 live file unless forced; with `force` an existing file is re-added — no change). -/
+def DNode.addNewFile (d : DNode) (F f : String) : DNode :=
+  match d.n.liveFolder? F with
+  | some G => if (findLive f G.files).isSome then d else { d with n := d.n.addFile F (freshFile f) }
+  | none => d
+
 def DNode.createFile (d : DNode) (F f : String) : DNode :=
-  let d1 := match d.n.liveFolder? F with
+  (match d.n.liveFolder? F with
     | some _ => d
-    | none => d.createFolder F
-  match d1.n.liveFolder? F with
-  | some G => if (findLive f G.files).isSome then d1 else { d1 with n := d1.n.addFile F (freshFile f) }
-  | none => d1
+    | none => d.createFolder F).addNewFile F f
 
 /-- the live file `f` of the live folder `F` -/
 def Node.liveFile? (n : Node) (F f : String) : Option File :=
